@@ -898,6 +898,20 @@ Proof.
   - intros n Hd HC. apply (R_kv s0 t R n Hd HC).
 Qed.
 
+
+(* a freeze cycle never deletes a canonical block that is not in the freezer: at every
+   stop point of every history, for EVERY batch limit [bl] (in particular for cycles capped
+   by the limit, where more blocks are eligible than are frozen), every canonical block at or
+   above the freezer head is still answered by the key-value store alone exactly as before *)
+Theorem never_deletes_unfrozen_canonical s0 bl evs t n :
+  Inv s0 -> In t (s0 :: visible_all bl s0 evs ++ [run bl s0 evs]) ->
+  frozen (s_fz t) <= n -> canon0 s0 n <> 0 ->
+  view_of (nofreeze t) (canon0 s0 n) n = view_of s0 (canon0 s0 n) n.
+Proof.
+  intros I Hin Hn HC. destruct (frozen_prefix_contiguous s0 bl evs t I Hin) as (Hd & _ & H).
+  apply H; [lia | exact HC].
+Qed.
+
 (* ---------------- side chains below the boundary ---------------- *)
 Definition block_absent (k : kvs) (m : N) (h : hash) : Prop :=
   get2 (m, h) (k_hdr k) = None /\ get2 (m, h) (k_body k) = None /\
@@ -1164,3 +1178,23 @@ Proof.
   split; [vm_compute; reflexivity|]. split; [vm_compute; reflexivity|].
   split; vm_compute; reflexivity.
 Qed.
+
+(* a capped cycle: batch limit 3, five blocks eligible (finalized = block 4).  The first
+   cycle freezes 0..2 only; the canonical blocks 3 and 4 stay in the key-value store, the
+   side blocks 21 22 (below the boundary) and their dangling descendants 23 24 go; the
+   second cycle freezes the rest. *)
+Definition ex_capped : bool :=
+  let s := set_markers 14 14 14 ex_s0 in
+  let t1 := run ex_parent 3 s [EvCycle] in
+  let t2 := run ex_parent 3 s [EvCycle; EvCycle] in
+  wf_b ex_keccak ex_parent s &&
+  (frozen (s_fz t1) =? 3) && (f_durable (s_fz t1) =? 3) &&
+  kv_has (3, 13) (k_hdr (s_kv t1)) && kv_has (4, 14) (k_hdr (s_kv t1)) &&
+  kv_has (3, 13) (k_body (s_kv t1)) && kv_has (4, 14) (k_rcpt (s_kv t1)) &&
+  (ohash (get1 3 (k_canon (s_kv t1))) =? 13) &&
+  forallb (fun nh : N * hash => negb (kv_has nh (k_hdr (s_kv t1))))
+          [(1, 11); (2, 12); (1, 21); (2, 22); (3, 23); (4, 24)] &&
+  match get1 13 (k_num (s_kv t1)), get1 14 (k_num (s_kv t1)), get1 23 (k_num (s_kv t1)) with
+  | Some 3, Some 4, None => true | _, _, _ => false end &&
+  (frozen (s_fz t2) =? 5) && negb (kv_has (3, 13) (k_hdr (s_kv t2))) &&
+  (read_canonical_hash t2 4 =? 14).
